@@ -117,6 +117,7 @@ def parse(res, g, unit_name):
             if 'recommendation not met' in msg:
                 continue
             hard.append(msg + ' @ ' + '; '.join('%d:%d' % (s['line_start'], s['column_start']) for s in spans[:2]))
+            out.setdefault('hard_fns', []).append(_fn_of(spans, g))
             continue
         fn = _fn_of(spans, g)
         label = _label_of(spans, g)
